@@ -2,8 +2,9 @@
 
 Translation-validation style: the Coq checker WellFormed_b (proved sound for the Prop-level
 WellFormed) is evaluated by vm_compute on EVERY partitioned graph the real partition_graph
-returns for generated DFIR programs; bit 0 reports a front-model disagreement (the model does
-not accept a graph the implementation partitioned)."""
+returns for generated DFIR programs; bit 0 compares that whole output (subgraphs, member order,
+toposort, handoff placement, delay marks) with the executable model of all of partition_graph
+(Partition/Full.v, built on GraphAlg's SubgraphMerge model), modulo the ids of inserted handoffs."""
 import copy
 import os
 
@@ -59,12 +60,12 @@ def mutants(part):
 
 
 class C18(vlib.Spec):
-    model_vo = ["theories/Partition/WF.vo", "theories/Gen/OpsTable.vo"]
+    model_vo = ["theories/Partition/WF.vo", "theories/Partition/Full.vo", "theories/Gen/OpsTable.vo"]
     props_vo = "theories/Props/C18.vo"
     theorems = ["C18_WellFormed_b_sound_partial", "C18_refuted_reference_into_loop"]
     crate, group, binary = "h_partition", "dfir", "h_partition"
     imports = ("From Coq Require Import List String NArith.\n"
-               "From HV Require Import Partition.Base Partition.Model Partition.WF Gen.OpsTable.\n"
+               "From HV Require Import Partition.Base Partition.Model Partition.WF Partition.Full Gen.OpsTable.\n"
                "Import ListNotations.\nOpen Scope string_scope.")
     level = "translation_validation"
     trusted_base = ["coqc 8.16.1 kernel (vm_compute evaluates the checker)",
@@ -91,9 +92,12 @@ class C18(vlib.Spec):
             return 3
         part = res["part"]
         if "ok" not in part:
-            return 0  # rejected / panicked: C19's business
-        return ("(match partition_verdict ops_table %s with Accepted => 0 | _ => 1 end) + c18_check ops_table %s"
-                % (P.g_graph(res["flat"]), P.g_graph(part["ok"])))
+            # rejected / panicked (C19's business): the full model must not produce a graph either
+            return "full_check ops_table %s None" % P.g_graph(res["flat"])
+        # bit 0: the executable model of the WHOLE partition_graph (Partition/Full.v) predicts this output
+        # (modulo the ids of inserted handoffs / edges); bit 1: the output is not well formed
+        pg = P.g_graph(part["ok"])
+        return "full_check ops_table %s (Some %s) + c18_check ops_table %s" % (P.g_graph(res["flat"]), pg, pg)
 
     def shrink(self, case):
         return P.shrink_program(case)
